@@ -563,19 +563,7 @@ func (s *HASyncer) performFullSync() error {
 	}
 
 	// Apply full sync
-	s.receivedMu.Lock()
-	s.receivedSessions = make(map[string]*SessionState)
-	for i := range msg.Sessions {
-		session := msg.Sessions[i]
-		s.receivedSessions[session.SessionID] = &session
-		if err := s.store.PutSession(&session); err != nil {
-			s.logger.Warn("Failed to store session",
-				zap.String("session_id", session.SessionID),
-				zap.Error(err),
-			)
-		}
-	}
-	s.receivedMu.Unlock()
+	s.applyFullSync(msg.Sessions)
 
 	s.mu.Lock()
 	s.stats.LastSyncTime = time.Now()
@@ -590,6 +578,41 @@ func (s *HASyncer) performFullSync() error {
 	)
 
 	return nil
+}
+
+// applyFullSync replaces the locally held session table by a snapshot received
+// from the active node: every session of the snapshot is stored, and every
+// stored session that is not part of the snapshot (it ended on the active node
+// while this node was not connected) is removed.
+func (s *HASyncer) applyFullSync(sessions []SessionState) {
+	s.receivedMu.Lock()
+	defer s.receivedMu.Unlock()
+
+	s.receivedSessions = make(map[string]*SessionState, len(sessions))
+	for i := range sessions {
+		session := sessions[i]
+		s.receivedSessions[session.SessionID] = &session
+		if err := s.store.PutSession(&session); err != nil {
+			s.logger.Warn("Failed to store session",
+				zap.String("session_id", session.SessionID),
+				zap.Error(err),
+			)
+		}
+	}
+
+	// Drop sessions the active node no longer has.
+	stored := s.store.GetAllSessions()
+	for _, existing := range stored {
+		if _, ok := s.receivedSessions[existing.SessionID]; ok {
+			continue
+		}
+		if err := s.store.DeleteSession(existing.SessionID); err != nil {
+			s.logger.Warn("Failed to delete stale session",
+				zap.String("session_id", existing.SessionID),
+				zap.Error(err),
+			)
+		}
+	}
 }
 
 // connectToStream connects to the SSE stream from the active node.
@@ -716,14 +739,7 @@ func (s *HASyncer) handleSSEData(data []byte) error {
 
 	case SyncTypeFull:
 		// Unexpected in stream, but handle gracefully
-		s.receivedMu.Lock()
-		s.receivedSessions = make(map[string]*SessionState)
-		for i := range msg.Sessions {
-			session := msg.Sessions[i]
-			s.receivedSessions[session.SessionID] = &session
-			s.store.PutSession(&session)
-		}
-		s.receivedMu.Unlock()
+		s.applyFullSync(msg.Sessions)
 	}
 
 	s.mu.Lock()
